@@ -519,7 +519,20 @@ def _no_scratch_dir_failure(ctx, rng):
             ctx.report('mapping:error-path:output-dir-left', f'a failing mapping run without a scratch directory left {extra} '
                        f'in the output directory (worker {k} fails {pt} its work by {mode})',
                        {'history': 'mapping_fail_without_scratch_dir', 'fault': [k, pt, mode]})
-    ctx.part('c2s', no_scratch_dir_failures=2, no_scratch_dir_success=1)
+    # H13 a run that stops because its result / log file cannot be written (directory missing) leaves nothing in the
+    # scratch directory it was given
+    jobs = [{'job': {'scn': s, 'scheme': 'structural', 'plan': None, 'mode': 'cli', 'damage': dmg}}
+            for dmg in ('missing_out_dir', 'missing_log_dir')]
+    for dmg, o in zip(('missing_out_dir', 'missing_log_dir'), sub.run_jobs(ctx, jobs)):
+        ctx.count({'stage': 'mapping', 'kind': 'unwritable_output', 'damage': dmg}, nontrivial=True)
+        if o['ok']:
+            raise MachineryError(f'history H13: the run with {dmg} did not fail')
+        if o.get('scratch_left'):
+            ctx.report('mapping:unwritable-output:scratch-left', f'a mapping run that stops because its '
+                       f'{"result" if dmg == "missing_out_dir" else "log"} file cannot be written (directory missing) left '
+                       f'{[re.sub(r"_[0-9]{14}_[a-z0-9_]{8}", "_*", x) for x in o["scratch_left"]]} in its scratch directory',
+                       {'history': 'mapping_unwritable_output', 'damage': dmg})
+    ctx.part('c2s', no_scratch_dir_failures=2, no_scratch_dir_success=1, unwritable_output_failures=2)
 
 
 def _same_name_outputs(ctx, base, pipe, expect):
